@@ -267,6 +267,14 @@ const preludeText = `
 (assert (= (slen str_empty) 0))
 (define-fun nil_slice () Slice (mk-slice 0 0 0 0))
 (define-fun nil_any () Any (mk-any 0 0 str_empty false flt_zero))
+(declare-const zero_arr_Any (Array Int Any))
+(assert (forall ((i Int)) (! (= (select zero_arr_Any i) nil_any) :pattern ((select zero_arr_Any i)))))
+(declare-const zero_arr_Str (Array Int Str))
+(assert (forall ((i Int)) (! (= (select zero_arr_Str i) str_empty) :pattern ((select zero_arr_Str i)))))
+(declare-const zero_arr_Slice (Array Int Slice))
+(assert (forall ((i Int)) (! (= (select zero_arr_Slice i) nil_slice) :pattern ((select zero_arr_Slice i)))))
+(declare-const zero_arr_Flt (Array Int Flt))
+(assert (forall ((i Int)) (! (= (select zero_arr_Flt i) flt_zero) :pattern ((select zero_arr_Flt i)))))
 (define-fun wrap_u8 ((x Int)) Int (mod x 256))
 (define-fun wrap_u16 ((x Int)) Int (mod x 65536))
 (define-fun wrap_u32 ((x Int)) Int (mod x 4294967296))
@@ -278,6 +286,8 @@ const preludeText = `
 (define-fun go_div ((x Int) (y Int)) Int (ite (>= x 0) (ite (> y 0) (div x y) (- (div x (- y)))) (ite (> y 0) (- (div (- x) y)) (div (- x) (- y)))))
 (define-fun go_mod ((x Int) (y Int)) Int (- x (* y (go_div x y))))
 (define-fun pow2 ((k Int)) Int POW2BODY)
+(define-fun go_shr ((x Int) (c Int)) Int SHRBODY)
+(define-fun go_shl ((x Int) (c Int)) Int SHLBODY)
 (declare-fun bit_and (Int Int) Int)
 (declare-fun bit_or (Int Int) Int)
 (declare-fun bit_xor (Int Int) Int)
@@ -345,8 +355,28 @@ func (b *bigInt) String() string { return b.digits }
 
 func pow2Str(k uint) string { return new(bigInt).lsh(k).String() }
 
+func shBody(left bool) string {
+	var s string
+	if left {
+		s = "0"
+	} else {
+		s = "(ite (< x 0) (- 1) 0)"
+	}
+	for k := 63; k >= 0; k-- {
+		if left {
+			s = fmt.Sprintf("(ite (= c %d) (* x %s) %s)", k, pow2Str(uint(k)), s)
+		} else {
+			s = fmt.Sprintf("(ite (= c %d) (div x %s) %s)", k, pow2Str(uint(k)), s)
+		}
+	}
+	return s
+}
+
 func prelude() string {
-	return strings.Replace(preludeText, "POW2BODY", pow2Body(), 1)
+	t := strings.Replace(preludeText, "POW2BODY", pow2Body(), 1)
+	t = strings.Replace(t, "SHRBODY", shBody(false), 1)
+	t = strings.Replace(t, "SHLBODY", shBody(true), 1)
+	return t
 }
 
 var preludeLines []string
@@ -374,6 +404,11 @@ func prunedPrelude(body string, noQuant bool) string {
 						continue
 					}
 					if !strings.Contains(body, "("+sym+" ") {
+						keep = false
+					}
+				}
+				for _, za := range []string{"zero_arr_Any", "zero_arr_Str", "zero_arr_Slice", "zero_arr_Flt"} {
+					if strings.Contains(l, za) && !strings.Contains(body, za) {
 						keep = false
 					}
 				}
@@ -459,19 +494,7 @@ func runOne(ctx context.Context, sp solverSpec, file string, timeout time.Durati
 func raceSolvers(file string, timeout time.Duration, need int) []SolverResult {
 	ctx, cancel := context.WithCancel(context.Background())
 	defer cancel()
-	// head start
-	hs := 1500 * time.Millisecond
-	if hs > timeout {
-		hs = timeout
-	}
 	var results []SolverResult
-	if need <= 1 {
-		r := runOne(ctx, solvers[0], file, hs)
-		if r.Status == "unsat" || r.Status == "sat" {
-			return []SolverResult{r}
-		}
-		results = append(results, r)
-	}
 	ch := make(chan SolverResult, len(solvers))
 	var wg sync.WaitGroup
 	for _, sp := range solvers {
